@@ -16,6 +16,16 @@ import (
 type externalFn func(fr *frame, args []value) value
 
 func (r *Run) intrinsic(name string, fn *ssa.Function) externalFn {
+	if r.intrKnown[fn] {
+		return r.intrCache[fn]
+	}
+	f := r.intrinsic1(name, fn)
+	r.intrKnown[fn] = true
+	r.intrCache[fn] = f
+	return f
+}
+
+func (r *Run) intrinsic1(name string, fn *ssa.Function) externalFn {
 	if to, ok := r.cfg.Redirect[name]; ok {
 		target := r.cfg.lookupFunc(to)
 		if target == nil {
@@ -132,7 +142,9 @@ func init() {
 			return nil
 		},
 		"Assert": func(r *Run, fr *frame, a []value) value {
-			r.asserts++
+			if !r.replaying() {
+				r.asserts++
+			}
 			pos := ""
 			if fr.caller != nil {
 				pos = fr.caller.fn.String()
@@ -150,6 +162,9 @@ func init() {
 			return nil
 		},
 		"Reach": func(r *Run, fr *frame, a []value) value {
+			if r.replaying() {
+				return nil
+			}
 			r.reached[strArg(a[0])]++
 			return nil
 		},
@@ -385,6 +400,15 @@ func init() {
 			}
 			return concatStr(parts)
 		},
+		"strings.Contains": func(r *Run, fr *frame, a []value) value {
+			return r.strFind(a[0], a[1], 0)
+		},
+		"strings.HasPrefix": func(r *Run, fr *frame, a []value) value {
+			return r.strFind(a[0], a[1], 1)
+		},
+		"strings.HasSuffix": func(r *Run, fr *frame, a []value) value {
+			return r.strFind(a[0], a[1], 2)
+		},
 		"unicode/utf8.RuneCountInString": func(r *Run, fr *frame, a []value) value {
 			if s, ok := a[0].(string); ok {
 				return len([]rune(s))
@@ -392,6 +416,47 @@ func init() {
 			return len(r.symRunes(fr, nil, a[0].(*symStr)).([]value))
 		},
 	}
+}
+
+// strFind: mode 0 = Contains, 1 = HasPrefix, 2 = HasSuffix; strings may hold symbolic bytes.
+func (r *Run) strFind(sv, subv value, mode int) value {
+	if s, ok := sv.(string); ok {
+		if sub, ok := subv.(string); ok {
+			switch mode {
+			case 0:
+				return strings.Contains(s, sub)
+			case 1:
+				return strings.HasPrefix(s, sub)
+			}
+			return strings.HasSuffix(s, sub)
+		}
+	}
+	p := r.pool
+	s, sub := strBytesAny(r, sv), strBytesAny(r, subv)
+	if len(sub) > len(s) {
+		return false
+	}
+	at := func(off int) *Term {
+		c := p.Bool(true)
+		for j := range sub {
+			c = p.And(c, p.Cmp("=", intTerm(p, s[off+j]), intTerm(p, sub[j])))
+			if c.IsFalse() {
+				break
+			}
+		}
+		return c
+	}
+	switch mode {
+	case 1:
+		return fromBoolTerm(at(0))
+	case 2:
+		return fromBoolTerm(at(len(s) - len(sub)))
+	}
+	res := p.Bool(false)
+	for off := 0; off+len(sub) <= len(s); off++ {
+		res = p.Or(res, at(off))
+	}
+	return fromBoolTerm(res)
 }
 
 func deepSymAny(v value) bool {
